@@ -29,14 +29,19 @@ Definition mk_caller st t due cancel : caller := {| c_st := st; c_t := t; c_due 
 Fixpoint blocked_ids (l : list caller) (i : nat) : list nat :=
   match l with [] => [] | c :: r => if blocked c then i :: blocked_ids r (S i) else blocked_ids r (S i) end.
 
+(* only a blocked caller can be handed a token *)
 Definition grant (s : wstate) (i : nat) : wstate :=
   match nth_error (ws_callers s) i with
-  | Some c => with_callers s (ws_busy s + 1) (ws_now s) (set_caller (ws_callers s) i (mk_caller 1 (ws_now s) 0 (c_cancel c)))
+  | Some c => if blocked c
+              then with_callers s (ws_busy s + 1) (ws_now s) (set_caller (ws_callers s) i (mk_caller 1 (ws_now s) 0 (c_cancel c)))
+              else s
   | None => s
   end.
 Definition refuse (s : wstate) (i : nat) : wstate :=
   match nth_error (ws_callers s) i with
-  | Some c => with_callers s (ws_busy s) (ws_now s) (set_caller (ws_callers s) i (mk_caller 2 (ws_now s) 0 (c_cancel c)))
+  | Some c => if blocked c
+              then with_callers s (ws_busy s) (ws_now s) (set_caller (ws_callers s) i (mk_caller 2 (ws_now s) 0 (c_cancel c)))
+              else s
   | None => s
   end.
 Definition has_room (s : wstate) : bool := ws_busy s <? ws_limit s.
